@@ -15,6 +15,10 @@ class SrcError(Exception):
     pass
 
 
+class SubmitError(Exception):
+    """raised by the submission function itself (`func` of fifo_stream / async_fifo_stream) for one element"""
+
+
 def fid(fut):
     i = getattr(fut, '_vi', None)
     if i is None:
